@@ -251,6 +251,7 @@ def quotient_cases(rng, quick):
         kind = kinds[(t // 6) % len(kinds)]
         fbig = rng.random() >= 0.8
         f = gen_f(rng, kind, deg, (1 << 20) if fbig else 12)
+        if kind == 'monic' and t % 2 == 1: f = [-c_ for c_ in f]; kind = 'lc-minus-one'      # leading coefficient exactly -1: a unit, but not 1
         n = len(f) - 1
         bits = rng.choice([3, 3, 20, 40])
         dbits = rng.choice([0, bits])
